@@ -29,6 +29,10 @@ class Unsupported(Exception):
     pass
 
 
+class VacuousContract(Exception):
+    """a checker error (never a verdict): an assumed postcondition made the path infeasible"""
+
+
 class SpecError(Exception):
     """a contract expression cannot be evaluated on this path (missing local, missing created object, ...)"""
 
@@ -223,6 +227,14 @@ class VOpaque:
 
     def __init__(self, what):
         self.what = what
+
+
+class VCounted:
+    """a list whose elements the contract does not look into, except how many were appended and which one was appended last
+    (the list of variable groups of a formula: labels stay aligned only if every group is registered exactly once)"""
+
+    def __init__(self, count, last=None):
+        self.count, self.last = count, last
 
 
 class VClass:
@@ -525,6 +537,10 @@ class Engine:
             return None
         if ty == 'opaque':
             return VOpaque(base)
+        if ty == 'countedlist':
+            n = self.fresh(base + '_count')
+            self.pc.append(n >= 0)
+            return VCounted(n)
         if ty == 'any':
             return VOpaque(base)
         if ty.startswith('class:'):
@@ -657,7 +673,14 @@ class Engine:
                 self.run_top(rel, qual, node, c)
             except PathEnd:
                 pass
-            except (Unsupported, SpecError, PyExc, ReturnSig, BreakSig, ContinueSig):
+            except PyExc as e:
+                # a python exception raised while evaluating contract text / ghost code (outside the function body proper)
+                raise Unsupported('python {} while evaluating the contract at line {}'.format(e.name, e.line))
+            except VacuousContract as e:
+                if os.environ.get('PYVC_STRICT'):
+                    raise
+                raise Unsupported(str(e))
+            except (Unsupported, SpecError, ReturnSig, BreakSig, ContinueSig):
                 raise
             except (TypeError, AttributeError, IndexError, ValueError, KeyError, z3.Z3Exception) as e:
                 # the interpreter met values it has no model for (typically code that was edited into something the
@@ -697,6 +720,8 @@ class Engine:
             return o
         if isinstance(v, VMList):
             return VMList(v.term)
+        if isinstance(v, VCounted):
+            return VCounted(v.count, v.last)
         if isinstance(v, VArr):
             return VArr(v.length, v.arr)
         if isinstance(v, VArr2):
@@ -1034,6 +1059,10 @@ class Engine:
             return v
         if isinstance(v, VOpaque):
             return VOpaque(v.what)
+        if isinstance(v, VCounted):
+            n = self.fresh(name + '_count')
+            self.pc.append(n >= 0)
+            return VCounted(n)
         if v is None or isinstance(v, VOpt):
             return VOpt(self.fresh(name + '_isnone', z3.BoolSort()), self.fresh(name))
         if isinstance(v, VStr):
@@ -1268,6 +1297,15 @@ class Engine:
                 self.oblige('hint', h, self.spec_eval(h, env), s.lineno, decisive=False)
             except SpecError as se:
                 self.oblige('hint', '{} [not expressible: {}]'.format(h, se), False, s.lineno, decisive=False)
+        # decisive statements about the finished loop (e.g. how many iterations a generator loop made): property clauses
+        # that are about the loop as a whole, taken from the property text, not from the code
+        e_exit = dict(env)
+        e_exit[itname] = niter
+        for t in spec.get('exit_ensures', []):
+            try:
+                self.oblige('post', 'at loop exit: ' + t, self.spec_eval(t, e_exit), s.lineno)
+            except SpecError as se:
+                self.oblige('hint', '{} [not expressible: {}]'.format(t, se), False, s.lineno, decisive=False)
         self.exec_block(s.orelse, env)
 
     def eval_iter(self, e, env):
@@ -1616,7 +1654,7 @@ class Engine:
                 r = o.fields[e.attr[:-3]]
                 return toz(r.lo) if e.attr.endswith('_lo') else toz(r.hi)
             return ('method', o, e.attr)
-        if isinstance(o, (VTuple, VMList, VArr, VSeq, VOpaque, VArr2, VRow, VSet2, VStr, VStrs)) or isinstance(o, str):
+        if isinstance(o, (VTuple, VMList, VArr, VSeq, VOpaque, VCounted, VArr2, VRow, VSet2, VStr, VStrs)) or isinstance(o, str):
             return ('method', o, e.attr)
         if isinstance(o, tuple) and o[0] == 'global':
             return ('global', o[1] + '.' + e.attr)
@@ -1645,9 +1683,10 @@ class Engine:
             if not getattr(self, 'in_spec', False):
                 self.oblige('hazard', 'index in bounds: {}'.format(ast.unparse(e)), z3.And(i >= -n, i < n), e.lineno)
             ii = z3.If(i >= 0, i, n + i)
-            r = toz(base.items[-1])
+            tz = (lambda x: z3.StringVal(x)) if all(isinstance(x, str) for x in base.items) else toz
+            r = tz(base.items[-1])
             for k in range(n - 2, -1, -1):
-                r = z3.If(ii == k, toz(base.items[k]), r)
+                r = z3.If(ii == k, tz(base.items[k]), r)
             return r
         if isinstance(base, VArr):
             wrap = (lambda r: VSeq(r)) if base.arr.sort().range() == specs.CSeq else (lambda r: r)
@@ -2117,10 +2156,24 @@ class Engine:
         post_env = dict(env)
         post_env['__old__'] = old
         post_env['result'] = res
+        n_before = len(self.pc)
         for ens in c.get('ensures', []):
             if self.definitional(ens, post_env, c.get('modifies', [])):
                 continue
             self.assume(toz(self.spec_eval(ens, post_env)))
+        # vacuity guard: assuming the callee's postcondition must not make a feasible path infeasible (a contract whose
+        # `ensures` contradict the caller's state - typically a missing `modifies` frame - would prove everything after it)
+        if self.recording() and len(self.pc) > n_before:
+            sv = z3.Solver()
+            sv.set('timeout', 1500)
+            sv.add(self.pc)
+            if sv.check() == z3.unsat:
+                sv2 = z3.Solver()
+                sv2.set('timeout', 1500)
+                sv2.add(self.pc[:n_before])
+                if sv2.check() != z3.unsat:
+                    raise VacuousContract('the postcondition of {} contradicts the state at its call site (line {}): '
+                                          'missing `modifies` frame or inconsistent contract'.format(key[1], node.lineno))
         return res
 
     def closure_to_gad(self, f, node):
@@ -2462,11 +2515,25 @@ def _wrap(fn, ret=None):
 def sf_gadid(eng, node, name):
     ids = getattr(eng, 'gadids', {})
     if name not in ids:
-        raise SpecError('no function value named ' + str(name))
+        # the function value was not created on this path (e.g. the other branch of a dispatch): an unconstrained id
+        return eng.fresh('gadid_absent_' + str(name))
     return ids[name]
 
 
+def sf_ocount(eng, node, v):
+    if not isinstance(v, VCounted):
+        raise SpecError('ocount of a value that is not a counted list')
+    return v.count
+
+
+def sf_olast(eng, node, v):
+    if not isinstance(v, VCounted) or v.last is None:
+        raise SpecError('olast: nothing was appended')
+    return v.last
+
+
 SPEC_FUNCS = {
+    'ocount': sf_ocount, 'olast': sf_olast,
     'aind': _wrap(specs.aind), 'gadid': sf_gadid,
     'gad': _wrap(specs.gad), 'cdist': _wrap(specs.cdist), 'cdistall': _wrap(specs.cdistall), 'cind': _wrap(specs.cind),
     'satind': _wrap(specs.satind),
@@ -2769,6 +2836,10 @@ LIBRARY = {'itertools.combinations': lib_combinations, 'itertools.product': lib_
 
 
 def lm_append(eng, node, o, x):
+    if isinstance(o, VCounted):
+        o.count = o.count + 1
+        o.last = x
+        return None
     if isinstance(o, VTuple):
         o.items.append(x)
         return None
@@ -2988,8 +3059,24 @@ LIBRARY['collections.OrderedDict'] = lambda eng, node, *a: VOpaque('OrderedDict'
 LIBRARY['copy.copy'] = lib_copy
 LIBRARY['copy'] = lib_copy
 LIBRARY['bisect.bisect_right'] = lib_bisect_right
-LIST_METHODS = {('VStr', 'strip'): lm_str_strip, ('VStr', 'split'): lm_str_split, ('VStr', 'isascii'): lm_str_pred,
+def lm_tuple_index(eng, node, o, x):
+    """list.index(x) on a concrete list of scalars with a symbolic x: first equal position, ValueError when absent"""
+    if not all(isinstance(i, (int, str)) and not isinstance(i, bool) for i in o.items):
+        raise Unsupported('list.index on a list of structured values')
+    xs = [z3.StringVal(i) if isinstance(i, str) else z3.IntVal(i) for i in o.items]
+    xv = z3.StringVal(x) if isinstance(x, str) else toz(x)
+    if xs and xs[0].sort() != xv.sort() or len({t.sort().name() for t in xs}) > 1:
+        raise Unsupported('list.index with mixed element types')
+    if eng.branch(z3.Not(z3.Or(*[xv == t for t in xs])) if xs else True):
+        raise PyExc('ValueError', node.lineno)
+    r = z3.IntVal(len(xs) - 1)
+    for k in range(len(xs) - 2, -1, -1):
+        r = z3.If(xv == xs[k], z3.IntVal(k), r)
+    return r
+
+
+LIST_METHODS = {('VTuple', 'index'): lm_tuple_index, ('VStr', 'strip'): lm_str_strip, ('VStr', 'split'): lm_str_split, ('VStr', 'isascii'): lm_str_pred,
                 ('VStr', 'isdigit'): lm_str_pred, ('VStr', 'startswith'): lm_str_pred, ('VStr', 'lstrip'): lm_str_strip,
                 ('VStr', 'rstrip'): lm_str_strip, ('VOpaqueFile', 'readlines'): lm_readlines, ('VArr2', 'get'): lm_dict_get, ('VRow', 'insert'): lm_row_insert, ('VRow', 'remove'): lm_row_remove, ('VArr2', 'append'): lm_arr2_append,
-                ('VSet2', 'add'): lm_set_add, ('VSet2', 'remove'): lm_set_remove,('VTuple', 'append'): lm_append, ('VMList', 'append'): lm_append, ('VArr', 'append'): lm_append,
+                ('VSet2', 'add'): lm_set_add, ('VSet2', 'remove'): lm_set_remove,('VTuple', 'append'): lm_append, ('VCounted', 'append'): lm_append, ('VMList', 'append'): lm_append, ('VArr', 'append'): lm_append,
                 ('VTuple', 'pop'): lm_pop, ('VArr', 'pop'): lm_pop}
